@@ -442,6 +442,14 @@ class RAlg(_Alg):
         """a float product / quotient / power must stay within the finite range (Python's ** even
         raises OverflowError); only generated when safety obligations are on"""
         if self.ctx.safety:
+            if getattr(self.ctx, "safety_raising_only", False):
+                # only operations that *raise* on overflow are obligations (float ** raises OverflowError,
+                # a float product or quotient quietly becomes inf)
+                if what != "power-no-overflow":
+                    return
+                big = z3.RealVal("17976931348623157" + "0" * 292)
+                self.ctx.safety_check(what, z3.And(r <= big, r >= -big))
+                return
             if RAlg._BIG is None:
                 RAlg._BIG = z3.RealVal("1" + "0" * 300)
             self.ctx.safety_check(what, z3.And(r <= RAlg._BIG, r >= -RAlg._BIG))
@@ -459,7 +467,10 @@ class RAlg(_Alg):
             c.fact(("sqrt+", t), z3.Implies(a.t > 0, t > 0), "sign", t)
             c.fact(("sqrtdef", t), z3.Implies(a.t >= 0, t * t == a.t), "def", t)
         elif name == "exp":
-            c.safety_check("exp-range", z3.And(a.t <= 700, a.t >= -700))
+            if getattr(c, "safety_raising_only", False):
+                c.safety_check("exp-range", a.t <= 709)      # math.exp raises above ~709.78; it underflows to 0.0 quietly
+            else:
+                c.safety_check("exp-range", z3.And(a.t <= 700, a.t >= -700))
             c.fact(("exp", t), t > 0, "sign", t)
         elif name == "log":
             c.safety_check("log-domain", a.t > 0)
